@@ -33,14 +33,16 @@ type c14plan struct {
 	NClients  int
 	Reqs      []c14req // in issue order
 	Board     int
-	Agreement int   // size of the agreement shown to the latecomers
-	LateAt    []int // latecomers: a new connection logs in (and is shown the agreement) right before request LateAt[i] is issued
+	Banner    string // "banner.jpg" or "-": both runs of a plan are configured alike
+	Agreement int    // size of the agreement shown to the latecomers
+	LateAt    []int  // latecomers: a new connection logs in (and is shown the agreement) right before request LateAt[i] is issued
 }
 
 func c14genPlan(rt *rapid.T) c14plan {
 	p := c14plan{NClients: rapid.IntRange(3, 8).Draw(rt, "nclients"), Board: rapid.SampledFrom([]int{100, 33000, 60000}).Draw(rt, "board")}
 	n := rapid.IntRange(2, 14).Draw(rt, "nreqs")
 	p.Agreement = rapid.SampledFrom([]int{1, 1, 33000, 60000}).Draw(rt, "agreement")
+	p.Banner = rapid.SampledFrom([]string{"-", "banner.jpg"}).Draw(rt, "banner")
 	for i, late := 0, rapid.IntRange(0, 2).Draw(rt, "latecomers"); i < late; i++ {
 		p.LateAt = append(p.LateAt, rapid.IntRange(0, n-1).Draw(rt, fmt.Sprintf("lateAt%d", i)))
 	}
@@ -112,7 +114,7 @@ func c14options(p c14plan) hlsim.Options {
 	news := fmt.Sprintf("Categories:\n    Seed:\n        Type: [0, 3]\n        Name: Seed\n        Articles:\n            1:\n                Title: big\n                Poster: p\n                Date: [7, 208, 0, 0, 0, 0, 0, 0]\n                PrevArt: [0, 0, 0, 0]\n                NextArt: [0, 0, 0, 0]\n                ParentArt: [0, 0, 0, 0]\n                FirstChildArtArt: [0, 0, 0, 0]\n                Data: %s\n        SubCats: {}\n", body)
 	seesAgreement := allAccess
 	seesAgreement.Clear(hlref.PrivNoAgreement)
-	return hlsim.Options{Agreement: strings.Repeat("a", max(p.Agreement, 1)), Board: strings.Repeat("b", p.Board), NewsYAML: news, Accounts: []hlsim.AccountSpec{acct("admin", "Admin", "adminpw", allAccess), acct("late", "Late", "latepw", seesAgreement)}}
+	return hlsim.Options{Agreement: strings.Repeat("a", max(p.Agreement, 1)), Board: strings.Repeat("b", p.Board), NewsYAML: news, BannerFile: p.Banner, Accounts: []hlsim.AccountSpec{acct("admin", "Admin", "adminpw", allAccess), acct("late", "Late", "latepw", seesAgreement)}}
 }
 
 func c14fixture(w *hlsim.World) {
